@@ -69,6 +69,14 @@ def wrong_dims_raise(a, n, s, t, q, us, which):
     return raises(lambda: Reaction([{"B": 1}, {"A": n}], kf=0, kr=bad))
 
 
+def wrong_dims_raise_env(n, s, t, q, us, form):
+    """the same for per-environment dictionaries: a quantity object / text of the wrong dimension under an environment key, a shared 'a,b' key or 'default'"""
+    bad = UnitValue(1.5, Units(SYS[us], UnitsDimensions(s, t, q)))
+    good = UnitValue(2.5, Units(SYS[us], UnitsDimensions(3 * n - 3, -1, 1 - n)))
+    val = [{"e0": bad}, {"e0": good, "default": bad}, {"e0,e1": bad}, {"e0": str(bad)}, {"e0": good, "e1": bad}][form]
+    return raises(lambda: Reaction([{"A": n}, {"B": 1}], kf=val, kr=0)) and raises(lambda: Reaction([{"B": 1}, {"A": n}], kf=0, kr=val))
+
+
 def right_dims_kept(a, n, us1, us2):
     """an explicit quantity of the right dimension keeps its physical value whatever the reaction's units system"""
     good = UnitValue(a, Units(SYS[us1], UnitsDimensions(3 * n - 3, -1, 1 - n)))
